@@ -38,6 +38,7 @@ type Case struct {
 	Inputs []Input
 	FailAt int // -1: no fault; otherwise input FailAt%k is truncated inside record FailRec
 	FailRec int
+	FailCut int // 0: the container is cut inside the member of the record; >0: the container is whole and the data stop this many bytes into the record
 	RD     int
 	Decoy  bool // pass a less function although the declared order is not "unknown": it must be ignored (documented)
 }
@@ -81,6 +82,7 @@ func draw(t *rapid.T) Case {
 	if rapid.IntRange(0, 4).Draw(t, "fault") == 0 {
 		c.FailAt = rapid.IntRange(0, 3).Draw(t, "failInput")
 		c.FailRec = rapid.IntRange(0, 7).Draw(t, "failRec")
+		c.FailCut = rapid.SampledFrom([]int{0, 0, 0, 1, 2, 3, 4, 5, 35, 36, 37, 1 << 20}).Draw(t, "failCut")
 	}
 	c.RD = rapid.SampledFrom([]int{1, 2}).Draw(t, "rd")
 	c.Decoy = rapid.Bool().Draw(t, "decoyLess")
@@ -235,7 +237,7 @@ func run(c Case, rec *h.Rec) {
 			// records before it are readable, that one is not. FailRec%n==0 damages the
 			// first record (seen by NewMerger), larger values fail in the middle of the merge.
 			k := c.FailRec % n
-			if re, cut, ok := reblockAndCut(streams[fi], k); ok {
+			if re, cut, ok := reblockAndCut(streams[fi], k, c.FailCut); ok {
 				streams[fi] = re[:cut]
 				failing = fi
 				failRec = k
@@ -265,6 +267,8 @@ func run(c Case, rec *h.Rec) {
 	rec.ClassIf(c.Decoy && c.Order != "unknown_nil" && c.Order != "unknown_custom", "less_given_but_order_declared")
 	rec.ClassIf(failing >= 0, "failing_input")
 	rec.ClassIf(failRec > 0, "failing_mid_stream")
+	rec.ClassIf(failing >= 0 && c.FailCut > 0, "data_stop_inside_a_record_of_a_whole_container")
+	rec.ClassIf(failing >= 0 && c.FailCut > 0 && c.FailCut < 4, "data_stop_inside_a_size_field")
 	rec.ClassIf(failRec > 0 && len(c.Inputs) == 1, "failing_mid_stream_single_input")
 	rec.ClassIf(nameOrderDiffers, "name_order_differs_from_header_order")
 	rec.NTIf((len(c.Inputs) >= 2 && stats.interleaved) || failing >= 0)
@@ -396,7 +400,7 @@ func mergeAndCheck(c Case, streams [][]byte, failing int, want map[struct{ in, o
 	}
 	if failing >= 0 {
 		if !gotErr {
-			return fmt.Sprintf("input %d is truncated inside one of its data blocks, yet the merger ended with io.EOF after %d records and never reported an error", failing, n)
+			return fmt.Sprintf("input %d ends inside one of its records, yet the merger ended with io.EOF after %d records and never reported an error", failing, n)
 		}
 		return ""
 	}
@@ -447,7 +451,9 @@ func TestProp(t *testing.T) {
 
 // reblockAndCut rewrites a BAM stream with one BGZF member per record and
 // returns it with an offset inside the member holding record k (its trailer).
-func reblockAndCut(stream []byte, k int) ([]byte, int, bool) {
+// With inRec > 0 the container stays whole (EOF marker included) and the data
+// stop inRec bytes into record k instead (at most one byte short of its end).
+func reblockAndCut(stream []byte, k, inRec int) ([]byte, int, bool) {
 	flat, err := bz.GunzipAll(stream)
 	if err != nil || len(flat) < 12 {
 		return nil, 0, false
@@ -467,6 +473,14 @@ func reblockAndCut(stream []byte, k int) ([]byte, int, bool) {
 	}
 	if k+1 >= len(payloads) {
 		return nil, 0, false
+	}
+	if inRec > 0 {
+		if inRec >= len(payloads[k+1]) {
+			inRec = len(payloads[k+1]) - 1
+		}
+		payloads = append(payloads[:k+1:k+1], payloads[k+1][:inRec])
+		f := bz.BuildFile(payloads, 1, true)
+		return f.Bytes, len(f.Bytes), true
 	}
 	f := bz.BuildFile(payloads, 1, true)
 	m := f.Members[k+1]
